@@ -5,6 +5,8 @@ use crate::conv::*;
 use pcv_core::checks::dec::hostile_inputs;
 use pcv_core::corpus::{corpus_value, HasShape};
 use pcv_core::gen::*;
+#[allow(unused_imports)]
+use pcv_core::gen::{deep_case, DEEP_DEPTHS};
 use pcv_core::json::{hex, J};
 use pcv_core::mem::{catch, count_allocs};
 use pcv_core::model::*;
@@ -271,6 +273,9 @@ pub fn run_c17(cfg: &Cfg) -> Report {
             Shape::Struct("T2", vec![("f0", Shape::Tuple(vec![Shape::U16])), ("f1", Shape::Tuple(vec![]))]),
             Shape::Enum("T3", vec![VariantShape { name: "V0", data: VData::Tuple(vec![]) }, VariantShape { name: "V1", data: VData::Struct(vec![]) }, VariantShape { name: "V2", data: VData::Unit }]),
             Shape::Seq(Box::new(Shape::Tuple(vec![Shape::Bool]))),
+            Shape::Seq(Box::new(Shape::Unit)),
+            Shape::Seq(Box::new(Shape::UnitStruct("T4"))),
+            Shape::Struct("T5", vec![("f0", Shape::Seq(Box::new(Shape::Tuple(vec![])))), ("f1", Shape::Seq(Box::new(Shape::Unit)))]),
             Shape::Char,
             Shape::Tuple(vec![Shape::Char, Shape::Char]),
             Shape::I128,
@@ -293,6 +298,22 @@ pub fn run_c17(cfg: &Cfg) -> Report {
                 }
             }
         }
+        // deep nesting
+        let mut di = 0u64;
+        for kind in [1usize, 2, 3, 4, 5] {
+            for &depth in &DEEP_DEPTHS {
+                di += 1;
+                if !t.mine(di) {
+                    continue;
+                }
+                let (shape, val) = deep_case(kind, depth);
+                let schema = shape_to_owned(&shape);
+                if let (Ok(sb), Ok(json)) = (postcard::to_allocvec(&val), serde_json::to_value(&val)) {
+                    t.st.count("deep_nesting_cases");
+                    c17_case(t, &schema, &shape, &val, &sb, &json, "deep nesting");
+                }
+            }
+        }
         // concrete corpus inside the quantifier
         let mut i = 0u64;
         macro_rules! one {
@@ -309,7 +330,7 @@ pub fn run_c17(cfg: &Cfg) -> Report {
         one!(Option<u8>); one!(Option<String>); one!(Result<u16, String>);
         one!(std::ops::Range<u16>); one!(std::ops::RangeInclusive<i32>);
         one!(crate::corpus::SNew); one!(crate::corpus::STup); one!(crate::corpus::SEmptyTup); one!(crate::corpus::SNamed); one!(crate::corpus::SEmptyNamed); one!(crate::corpus::SUnsorted);
-        one!(crate::corpus::SBasic); one!(crate::corpus::SData); one!(crate::corpus::SNested); one!(crate::corpus::SStd); one!(crate::corpus::SArrays); one!(crate::corpus::SGen<u16>);
+        one!(crate::corpus::SBasic); one!(crate::corpus::SData); one!(crate::corpus::SNested); one!(crate::corpus::SStd); one!(crate::corpus::SArrays); one!(crate::corpus::SGen<u16>); one!(crate::corpus::SLevel); one!(crate::corpus::SRaw); one!(Vec<crate::corpus::SLevel>); one!(Vec<crate::corpus::SUnit>); one!(Vec<[u8; 0]>); one!(Vec<()>);
     });
     rep.stats.merge(s);
     rep.rule = "cases = (schema, value): random shape trees rewritten to stay inside the quantifier (string-keyed maps with unique ascending keys, no null-like payload directly inside Option, integers \
@@ -322,6 +343,7 @@ pub fn run_c17(cfg: &Cfg) -> Report {
     rep.floor("dyn_decode_agrees", 500);
     rep.floor("special_shape_cases", 20);
     rep.floor("corpus_cases", 100);
+    rep.floor("deep_nesting_cases", 5);
     for k in ["shape_char", "shape_i128", "shape_u128", "shape_usize", "shape_isize", "shape_bytes", "shape_map", "shape_enum", "shape_tuple", "shape_option"] {
         rep.floor(k, 1);
     }
@@ -649,6 +671,28 @@ pub fn run_c18(cfg: &Cfg) -> Report {
             for _ in 0..3 {
                 let j = gen_json(&mut t.rng, 3);
                 c18_encode(t, &schema, &shape, "unrelated", &j);
+            }
+        }
+    });
+    rep.stats.merge(s);
+    let s = parallel(cfg, 2, |t| {
+        let mut di = 0u64;
+        for kind in 0..7 {
+            for &depth in &DEEP_DEPTHS {
+                di += 1;
+                if !t.mine(di) {
+                    continue;
+                }
+                let (shape, val) = deep_case(kind, depth);
+                let schema = shape_to_owned(&shape);
+                let nodes = shape.nodes();
+                let valid = spec::encode(&val);
+                t.st.count("deep_nesting_cases");
+                c18_decode(t, &schema, &shape, nodes, "deep_valid", &valid);
+                c18_decode(t, &schema, &shape, nodes, "deep_prefix", &valid[..valid.len() / 2]);
+                if let Ok(j) = serde_json::to_value(&val) {
+                    c18_encode(t, &schema, &shape, "deep_type_correct", &j);
+                }
             }
         }
     });
